@@ -1029,6 +1029,17 @@ int ov_fopen(const char *path,OggVorbis_File *vf){
 int ov_halfrate(OggVorbis_File *vf,int flag){
   int i;
   if(vf->vi==NULL)return OV_EINVAL;
+
+  /* every link takes the new setting before the decode machine is
+     rebuilt below; a refused switch is undone and leaves the running
+     decoder alone */
+  for(i=0;i<vf->links;i++){
+    if(vorbis_synthesis_halfrate(vf->vi+i,flag)){
+      while(i-->0)vorbis_synthesis_halfrate(vf->vi+i,0);
+      return OV_EINVAL;
+    }
+  }
+
   if(vf->ready_state>STREAMSET){
     /* clear out stream state; dumping the decode machine is needed to
        reinit the MDCT lookups. */
@@ -1039,13 +1050,6 @@ int ov_halfrate(OggVorbis_File *vf,int flag){
       ogg_int64_t pos=vf->pcm_offset;
       vf->pcm_offset=-1; /* make sure the pos is dumped if unseekable */
       ov_pcm_seek(vf,pos);
-    }
-  }
-
-  for(i=0;i<vf->links;i++){
-    if(vorbis_synthesis_halfrate(vf->vi+i,flag)){
-      if(flag) ov_halfrate(vf,0);
-      return OV_EINVAL;
     }
   }
   return 0;
